@@ -16,7 +16,7 @@ import traceback
 
 from . import canon
 from .rng import run_seed
-from .seams import SimKill, SimDeadlock
+from .seams import SimKill, SimDeadlock, RunTimeout, RunTooBig
 
 VERIF = os.path.dirname(os.path.dirname(os.path.abspath(__file__)))
 DEFAULT_SEED = 20260926
@@ -113,6 +113,9 @@ def run_case(prop, case, known):
         return v.record(), ctx, None
     except SimKill:
         return None, ctx, 'SimKill escaped the simulated call:\n' + traceback.format_exc()
+    except RunTooBig:
+        ctx.stats['run_ended_data_blowup'] += 1
+        return None, ctx, None
     except SimDeadlock as e:
         # a call into the library would never return (lock seam): no result, no error - whatever the property
         # demands of the call's outcome is not delivered
@@ -126,9 +129,6 @@ def same_violation(a, b):
 
 
 # ------------------------------------------------------------------------------------ worker
-class RunTimeout(BaseException):
-    """Raised inside a worker (SIGALRM) when one run exceeds its soft wall cap: reported with run index, seed and a
-    full Python traceback as a HARNESS-ERROR; the hard cap (faulthandler, process exit) stays as the last resort."""
 
 
 def _on_alarm(signum, frame):
